@@ -388,8 +388,10 @@ def _asarr(x, *a, **k):
     out = arr(_deep(x)) if isinstance(x, (list, tuple)) else x
     if d is not None and (d is int or getattr(d, '_is_int', False) or (isinstance(d, str) and d.startswith('int')) or (isinstance(d, OpaqueFn) and d.name in ('numpy.int64', 'numpy.int32', 'numpy.int_'))):
         # conversion to an integer dtype truncates towards zero (numpy semantics); symbolic entries are left as they are
-        trunc = lambda v: (sp.Integer(int(v)) if isinstance(v, (sp.Rational, sp.Float)) and not isinstance(v, sp.Integer) else v)
-        if is_arr(out) and out.dtype == object:
+        trunc = lambda v: (sp.Integer(int(v)) if (isinstance(v, (sp.Rational, sp.Float)) and not isinstance(v, sp.Integer)) or isinstance(v, (bool, np.bool_)) or v is sp.true or v is sp.false else v)
+        if is_arr(out) and out.dtype == bool:                      # True / False become 1 / 0: index arrays, no longer a mask
+            out = np.array([sp.Integer(int(v)) for v in out.ravel()], dtype=object).reshape(out.shape)
+        elif is_arr(out) and out.dtype == object:
             out = vmap(trunc, out)
         elif isinstance(out, sp.Basic):
             out = trunc(out)
@@ -1195,6 +1197,18 @@ class SymEval:
                         raise _PyRaise('TypeError')
                     raise WouldRaise('TypeError: unsupported operand types (text and number) in %s' % norm(n))
             raise Opaque('string arithmetic ' + norm(n))
+        # booleans in arithmetic with exact values count as 0 / 1 (numpy does the same; sympy refuses bool operands)
+        def _b2i(x, other):
+            if is_arr(other) and other.dtype == object or isinstance(other, sp.Basic):
+                if is_arr(x) and x.dtype == bool:
+                    return np.array([sp.Integer(int(v)) for v in x.ravel()], dtype=object).reshape(x.shape)
+                if is_arr(x) and x.dtype == object and x.size and all(isinstance(v, (bool, np.bool_)) for v in x.ravel()):
+                    return np.array([sp.Integer(int(v)) for v in x.ravel()], dtype=object).reshape(x.shape)
+                if isinstance(x, (bool, np.bool_)):
+                    return sp.Integer(int(x))
+            return x
+        if not isinstance(n.op, (ast.BitAnd, ast.BitOr, ast.BitXor)):
+            a, b = _b2i(a, b), _b2i(b, a)
         try:
             return BIN[type(n.op)](a, b)
         except KeyError:
